@@ -1103,7 +1103,7 @@ class Ev:
         for x, y in zip(pa, pb):
             if x != y and 1 not in (x, y):
                 raise RaisedV("ValueError")
-            out_shape.append(max(x, y))
+            out_shape.append(y if x == 1 else x)          # an axis of length 0 broadcasts against 1 to length 0
         batch = max(a.batch if isinstance(a, ArrV) else 0, b.batch if isinstance(b, ArrV) else 0)
         out = ArrV(batch, out_shape)
 
@@ -1332,6 +1332,10 @@ class Ev:
                 r = a in b.d
             elif isinstance(b, str) and isinstance(a, str):
                 r = a in b
+            elif isinstance(b, Tup) and not b.items:
+                r = False
+            elif isinstance(b, Tup) and const(a) and any(const(i) and py(a) == py(i) for i in b.items):
+                r = True            # structurally the same value as a member: equal whatever the other members are
             else:
                 raise self.err("membership test on a non-constant", n, mod)
             return r if isinstance(op, ast.In) else not r
@@ -1577,7 +1581,10 @@ class Ev:
         if hasattr(v, "sym_iter"):
             return v.sym_iter(self, n, mod)
         if isinstance(v, Tup):
-            return list(v.items)
+            items = list(v.items)
+            if getattr(v, "gen", False):
+                del v.items[:]          # a generator is spent by the first traversal: whoever iterates it again (through any alias) gets nothing
+            return items
         if isinstance(v, Obj) and "__fields__" in v.attrs:
             return [v.attrs[f] for f in v.attrs["__fields__"]]
         if isinstance(v, DictV):
@@ -2615,6 +2622,8 @@ def lib_array(ev, a, k, n, mod):
             and any(as_sym(i).free_symbols for i in x.items) and not getattr(x, "elementwise_seq", False) and not getattr(x, "gen", False):
         # a list of scalar expressions becomes a vector (arithmetic, .sum(), slices)
         return ArrV(0, (len(x.items),), cells={(j,): i for j, i in enumerate(x.items)})
+    if isinstance(x, Tup) and x.kind in ("list", "tuple") and not x.items:
+        return ArrV(0, (0,))            # numpy.array([]): an empty vector
     return x
 
 
@@ -2854,6 +2863,27 @@ def lib_str(ev, a, k, n, mod):
     raise ev.err("str() of a non-constant", n, mod)
 
 
+def lib_repr(ev, a, k, n, mod):
+    """repr() of plain data (nested dict / list / str / number / bool / None): a string that is equal for two values exactly when the values have the same
+    structure, types included - modelled by the structural key of the value.  Anything that has no structural key (arrays, symbols in containers) is refused."""
+    def structural(v):
+        if isinstance(v, bool) or v is None or isinstance(v, (str, int)):
+            return (type(v).__name__, v)
+        if isinstance(v, DictV):
+            return ("dict", tuple((structural(kk), structural(vv)) for kk, vv in v.d.items()))
+        if isinstance(v, Tup):
+            return (v.kind, tuple(structural(i) for i in v.items))
+        if isinstance(v, sp.Basic) and v.is_number:
+            return ("int", int(v)) if v.is_Integer else ("float", sp.srepr(v))
+        if isinstance(v, float):
+            return ("float", repr(v))
+        return ("key", hkey(v))
+    v = a[0]
+    if isinstance(v, str):
+        return repr(v)
+    return "repr:" + repr(structural(v))
+
+
 def lib_copy(ev, a, k, n, mod):
     x = a[0]
     if isinstance(x, ArrV):
@@ -2965,7 +2995,7 @@ LIB = {
     "numpy.where": lib_where, "numpy.gradient": lib_gradient, "numpy.abs": lib_abs, "abs": lib_abs,
     "len": lib_len, "range": lib_range, "tuple": lib_tuple, "list": lib_list, "sorted": lib_sorted,
     "zip": lib_zip, "itertools.product": lib_product, "itertools.permutations": lib_permutations,
-    "set": lib_set, "int": lib_int, "float": lib_float, "str": lib_str, "sum": lib_sum,
+    "set": lib_set, "int": lib_int, "float": lib_float, "str": lib_str, "repr": lib_repr, "sum": lib_sum,
     "isinstance": lib_isinstance,
     "pint.Quantity": lib_quantity, "pint.Quantity.to": lib_qty_to,
     "dict.items": lib_dict_items, "dict.keys": lib_dict_keys, "dict.values": lib_dict_values, "dict.get": lib_dict_get,
